@@ -78,6 +78,10 @@ CHECKS['C12'] = dict(level='model_checking', engine='statesearch+mutate+faultsto
    technique='explicit-state enumeration of arrival orders x batchings x repetitions of value multisets on the real key-value storage (canonical-content dedup), pairwise real sync exchanges over a marshalled in-memory wire, bounded exhaustive authenticity mutations, storage-fault enumeration inside a write',
    text='Hand-signed values (timestamps as data) of 2 accounts x 2 devices x 2 keys arrive in every permutation and batch composition (with repetition) through SetRaw / HandleMessage / local Set: contents, advertised index, hash and head-storage entry must equal the max-timestamp reference and a reopened store must advertise the same index; every ordered pair of reachable stores is synced once through the real diff / elements handlers and must become equal; relabelled, bit-flipped, cross-signed, unknown-record and unauthorised-signer variants must never be stored nor block valid batch neighbours; an error injected at every storage boundary of a write must leave index = stored and head = hash, and the retry must succeed.',
    note='equal-timestamp ties excluded (property quantifier); bounds on multiset sizes recorded in the evidence; one any-store database per shard wiped between cases', ref='5 C12')
+CHECKS['C11'] = dict(level='exploration', engine='mutate',
+   technique='bounded exhaustive structure-aware mutation enumeration (all short byte strings, every offset x value set, every truncation, every length-field edit, every wire field removed / duplicated / resized / retyped, the same on signed inner bytes re-signed with real keys) delivered to 34 real network-facing entry points; oracle = returns without panic, hang or allocation unrelated to the input size',
+   text='For 2-3 valid seed messages per entry point (tree changes and sync messages, ACL records through validate / add / coordinator-acceptor-client pipeline / keep-identity decode, key-value entries, head-sync and key-value range requests, space payloads and pull responses, pubsub frames, rpc encodings, key / address / ciphertext decoders) every mutant of the stated families is delivered to the real code on fresh objects; a recovered panic (keyed by its first any-sync frame), a call above 20 s three times or an allocation above 64*len+8 MiB measured alone three times is a violation; the keep-identity ACL decoder is additionally compared with the full decoder.',
+   note='not coverage-guided fuzzing: the mutation families are enumerated completely within the stated bounds (counts per entry point in the evidence); handshake frames are enumerated by the C14 check; inputs outside the families are not covered', ref='5 C11')
 NOT_YET = 'check not built yet (work in progress, see DESIGN.md section 10)'
 m = {
  'version': 1,
